@@ -257,6 +257,12 @@ def gen_matrix(rng, size):
     degrees, tens of percent), 'ident'."""
     if size == 'ident':
         return [[1.0, 0.0], [0.0, 1.0]]
+    if size == 'tiny':
+        # within 1e-5 of the identity (a few 2^-20): must be applied like any other correction
+        j = [rng.choice([-8, -5, -2, -1, 1, 3, 6, 8]) for _ in range(4)]
+        if rng.random() < 0.6:
+            return [[1.0 + j[0] * 2.0 ** -20, 0.0], [0.0, 1.0 + j[0] * 2.0 ** -20]]
+        return [[1.0 + j[0] * 2.0 ** -20, j[1] * 2.0 ** -21], [j[2] * 2.0 ** -21, 1.0 + j[3] * 2.0 ** -20]]
     amp = {'small': 2.0 ** -10, 'medium': 2.0 ** -5, 'large': 0.4}[size]
     while True:
         kind = rng.choice(['rot', 'rscale', 'general', 'general'])
@@ -284,10 +290,12 @@ def gen_shift(rng, size, unit):
 
 
 def gen_correction(rng, unit, t=None):
-    msize = rng.choice(['ident', 'small', 'medium', 'medium', 'large', 'large'])
+    msize = rng.choice(['ident', 'small', 'medium', 'medium', 'large', 'large', 'tiny'])
     ssize = rng.choice(['zero', 'small', 'medium', 'large', 'large'])
     if msize == 'ident' and ssize == 'zero':
         ssize = 'medium'
+    if msize == 'tiny' and rng.random() < 0.7:
+        ssize = 'zero'
     return dict(M=gen_matrix(rng, msize), s=gen_shift(rng, ssize, unit), msize=msize, ssize=ssize)
 
 
